@@ -12,12 +12,16 @@
                               values.
     sep_lines_irrelevant      the tables read do not depend on the number of separator lines (≥ 1)
     style_touches_no_value    for *every* table shape (no well-formedness needed; zero rows, zero columns,
-                              transposed, any mix in a sheet) styling raises nothing, the value grid is the one
-                              written without styles, and every styled cell lies in the rows of its own table and
-                              inside the sheet
+                              transposed, any mix in a sheet) styling raises nothing and every styled cell lies in
+                              the rows of its own table and inside the sheet.  That values are untouched rests on
+                              the pin `style_writes_pinned` (the loop assigns font / fill / alignment only) and on
+                              the harness comparing the saved value grids with and without styles; in the model
+                              the equality is by construction
     pattern_selects           a sheet-name pattern reads exactly the matching sheets, in order
     written_cells_representable  everything a well-formed table appends lies in the domain of the openpyxl law
 
+  Not in Lean: "writing to a path versus a binary stream" — the model has no notion of a target; the harness writes
+  every case to both and compares the saved value grids (harness-only evidence).
   Partial by design (DESIGN §4): `Grid.store` is the stated external law of openpyxl, sampled against the library
   by the harness on every run; how openpyxl applies a style object to a cell is outside the model.
 -/
@@ -130,12 +134,25 @@ def exRowwise : TableVal :=
     ⟨"ok".toList, "onoff".toList, [.bool true, .bool false]⟩,
     ⟨"born".toList, "datetime".toList, [.dt "2020-01-02T03:04:05".toList, .dt "NaT".toList]⟩]⟩
 
+/-- tab and line feed inside text, and the first representable timestamps -/
+def exControl : TableVal :=
+  ⟨"t\nb".toList, ["all".toList], false,
+   [⟨"a\tb".toList, "text".toList, [.text "a\nb".toList, .text " lead\n".toList]⟩,
+    ⟨"d".toList, "datetime".toList, [.dt "1900-01-01T00:00:00".toList, .dt "1900-02-28T23:59:59".toList]⟩]⟩
+
 def exTransposed : TableVal := { exRowwise with name := "t".toList, transposed := true }
 def exNoColumns : TableVal := ⟨"z".toList, ["all".toList], false, []⟩
 def exNoRows : TableVal := ⟨"r0".toList, ["all".toList], true, [⟨"a".toList, "m".toList, []⟩]⟩
 
 example : excelWF exRowwise = true ∧ excelWF exTransposed = true ∧ excelWF exNoColumns = true ∧
-    excelWF exNoRows = true ∧ naRepOK "-".toList = true := by decide
+    excelWF exNoRows = true ∧ excelWF exControl = true ∧ naRepOK "-".toList = true := by decide
+
+/-- sheet names: legal and distinct ignoring case; the two shapes the real code mishandles are outside
+    (`"a/b"`: openpyxl raises ValueError; `"A"`, `"a"`: the second sheet is renamed `a1`) -/
+example :
+    sheetNamesOK ["Sheet1".toList, "in put".toList, "résumé".toList, "Sheet".toList] = true ∧
+    sheetNamesOK ["a/b".toList] = false ∧ sheetNamesOK ["A".toList, "a".toList] = false ∧
+    sheetNamesOK [[]] = false ∧ sheetNamesOK [List.replicate 32 'x'] = false := by decide
 
 /-- no clause is idle: one violated clause each -/
 example :
@@ -145,6 +162,7 @@ example :
     excelWF { exRowwise with destinations := ["a:".toList] } = false ∧
     excelWF { exRowwise with columns := [⟨"a".toList, "text".toList, [.text "".toList]⟩] } = false ∧
     excelWF { exRowwise with columns := [⟨"a".toList, "text".toList, [.text "=1".toList]⟩] } = false ∧
+    excelWF { exRowwise with columns := [⟨"a".toList, "text".toList, [.text "a\rb".toList]⟩] } = false ∧
     excelWF { exRowwise with columns := [⟨"a".toList, "text".toList, [.text "k:".toList]⟩] } = false ∧
     excelWF { exRowwise with columns := [⟨" a".toList, "m".toList, [.num "1.0".toList]⟩] } = false ∧
     excelWF { exTransposed with columns := [⟨"a:".toList, "m".toList, [.num "1.0".toList]⟩] } = false ∧
@@ -241,10 +259,16 @@ theorem writeExcel_sheets (naRep : Str) (sep : Nat) (styles : Bool) (sheets : Li
       · simp [writeExcel, h1, hwb, bind, Except.bind, pure, Except.pure]
       · simp only [readSheets, List.map_cons] at hr ⊢; rw [hr]
 
-/-- **styles never change a value, and styling never fails** — for every sheet map, whatever the tables look like
-    (no well-formedness hypothesis): `write_excel` with styles succeeds exactly like without, every sheet has the
-    same name and the same cell values, the unstyled workbook has an empty style layer, and in the styled one every
-    cell handed to `_style_cells` lies in the rows of its own table and inside the sheet's rows and columns -/
+/-- **styling never fails and stays inside its own table** — for every sheet map, whatever the tables look like (no
+    well-formedness hypothesis): `write_excel` with styles succeeds exactly like without, and in the styled workbook
+    every cell handed to `_style_cells` lies in the rows of its own table and inside the sheet's rows and columns (so
+    styling indexes no cell that does not exist and creates none beyond the sheet width); the unstyled workbook has an
+    empty style layer.
+    What this does *not* prove by itself: that a styled cell keeps its value.  In the model the value grid has no
+    field a style could touch (`readSheets wbS = readSheets wbU` below holds by construction of `writeSheet`).  That
+    the real style loop assigns only `font` / `fill` / `alignment` and nothing in the module assigns `.value` is the
+    translator pin `style_writes_pinned`; that the saved cell values are identical with and without styles is
+    checked by the harness on every styled case (value grid of the two saved files, cell by cell). -/
 theorem style_touches_no_value (naRep : Str) (sep : Nat) (sheets : List (Str × List TableVal)) :
     ∃ wbS wbU, writeExcel naRep sep true sheets = .ok wbS ∧ writeExcel naRep sep false sheets = .ok wbU ∧
       readSheets wbS = readSheets wbU ∧ (∀ s ∈ wbU, s.styled = []) ∧
@@ -353,9 +377,13 @@ theorem tablesOf_flatMap {α : Type} (l : List α) (g : α → List (Str × Deli
     the external `float()` / `to_datetime`, every missing-value text that is a marker:
     `write_excel` succeeds, `read_excel` on the saved workbook reads to the end, and the tables it yields are exactly
     the written tables of the accepted sheets — in sheet order, then table order, each carrying the name of its sheet
-    as origin, with identical name, destinations, orientation, column names, units and values (`Spec.readBack`). -/
+    as origin, with identical name, destinations, orientation, column names, units and values (`Spec.readBack`).
+    The sheet names must be legal and distinct ignoring case (`sheetNamesOK`): creating and titling sheets is
+    openpyxl's business, the model writes the names as given, and outside that domain the real code raises
+    (`"a/b"`) or renames (`"A"`, `"a"` ↦ `"A"`, `"a1"`) — see the negative examples below and in the harness. -/
 theorem excel_roundtrip (ext : Ext) (tracker : Tracker) (naRep : Str) (hna : naRepOK naRep = true)
     (sep : Nat) (hsep : 1 ≤ sep) (styles : Bool) (sheets : List (Str × List TableVal))
+    (_hnames : sheetNamesOK (sheets.map (fun s => s.1)) = true)
     (hwf : ∀ s ∈ sheets, ∀ t ∈ s.2, excelWF t = true) (pattern : Str → Bool) (f0 : Fixer) :
     ∃ wb, writeExcel naRep sep styles sheets = .ok wb ∧
       (readExcel ⟨.pdtable, none, tracker, ext⟩ pattern f0 (readSheets wb)).ending = Ending.exhausted ∧
@@ -383,12 +411,13 @@ theorem excel_roundtrip (ext : Ext) (tracker : Tracker) (naRep : Str) (hna : naR
 /-- **the number of separator lines (at least one) is irrelevant** to what is read back -/
 theorem sep_lines_irrelevant (ext : Ext) (tracker : Tracker) (naRep : Str) (hna : naRepOK naRep = true)
     (sep1 sep2 : Nat) (h1 : 1 ≤ sep1) (h2 : 1 ≤ sep2) (st1 st2 : Bool) (sheets : List (Str × List TableVal))
+    (hnames : sheetNamesOK (sheets.map (fun s => s.1)) = true)
     (hwf : ∀ s ∈ sheets, ∀ t ∈ s.2, excelWF t = true) (pattern : Str → Bool) (f0 : Fixer) :
     ∃ wb1 wb2, writeExcel naRep sep1 st1 sheets = .ok wb1 ∧ writeExcel naRep sep2 st2 sheets = .ok wb2 ∧
       tablesOf (readExcel ⟨.pdtable, none, tracker, ext⟩ pattern f0 (readSheets wb1)).blocks =
       tablesOf (readExcel ⟨.pdtable, none, tracker, ext⟩ pattern f0 (readSheets wb2)).blocks := by
-  obtain ⟨wb1, hw1, _, ht1⟩ := excel_roundtrip ext tracker naRep hna sep1 h1 st1 sheets hwf pattern f0
-  obtain ⟨wb2, hw2, _, ht2⟩ := excel_roundtrip ext tracker naRep hna sep2 h2 st2 sheets hwf pattern f0
+  obtain ⟨wb1, hw1, _, ht1⟩ := excel_roundtrip ext tracker naRep hna sep1 h1 st1 sheets hnames hwf pattern f0
+  obtain ⟨wb2, hw2, _, ht2⟩ := excel_roundtrip ext tracker naRep hna sep2 h2 st2 sheets hnames hwf pattern f0
   exact ⟨wb1, wb2, hw1, hw2, by rw [ht1, ht2]⟩
 
 /-- non-vacuity: the model round trip of a three-table sheet map (mixed columns, both orientations, a table without
@@ -446,7 +475,7 @@ theorem writtenCell_representable (naRep u : Str) (hna : naRepOK naRep = true) (
     exact h.2
 
 /-- **every cell a well-formed table appends to the worksheet is representable** (non-empty legal text that is no
-    formula, integers and floats of at most 15 significant digits, naive whole-second timestamps from 1900-03-01):
+    formula, integers and floats of at most 15 significant digits, naive whole-second timestamps from 1900-01-01):
     the round trip theorem uses the openpyxl law `Grid.store` only inside its stated domain -/
 theorem written_cells_representable (naRep : Str) (hna : naRepOK naRep = true) (t : TableVal)
     (h : excelWF t = true) : ∀ r ∈ layoutTable naRep t, ∀ c ∈ r, cellRepresentable c = true := by
